@@ -144,6 +144,8 @@ class Registry:
         return deco
 
     def macro(self, name, params, body, schema=False):
+        if name in self.macros and self.macros[name] != (params, body):
+            raise ValueError(f"duplicate macro {name}")
         self.macros[name] = (params, body)
         if schema:
             self.schemas.add(name)
